@@ -13,6 +13,9 @@ from concurrent.futures import ThreadPoolExecutor
 
 REPO = os.environ.get('LLTD_REPO', '/repo')
 CLANG = os.environ.get('LLTD_CLANG', 'clang')
+# thorough tier: re-parse the (OS-header-free) core for a 32-bit target: ILP32 layouts, 4-byte size_t and pointers
+ILP32 = bool(os.environ.get('LLTD_ILP32'))
+WORD = 4 if ILP32 else 8
 
 CORE_UNITS = ['lltdResponder/lltdBlock.c', 'lltdResponder/lltdAutomata.c',
               'lltdResponder/lltdTlvOps.c', 'lltdResponder/lltdWire.c']
@@ -87,7 +90,8 @@ class Unit(object):
                 inc.append('-I' + os.path.join(REPO, f[2:]))
             else:
                 inc.append(f)
-        return [CLANG, '-std=gnu11', '-fsyntax-only', '-w'] + list(extra) + inc + [self.abspath]
+        m32 = ['-m32', '-ffreestanding'] if ILP32 and (self.path.startswith('lltdResponder/') or self.path.startswith('os/esp32/')) else []
+        return [CLANG, '-std=gnu11', '-fsyntax-only', '-w'] + m32 + list(extra) + inc + [self.abspath]
 
     def __repr__(self):
         return 'Unit(%s,%s)' % (self.path, self.config)
@@ -299,7 +303,8 @@ class Record(object):
 
 
 class DataModel(object):
-    def __init__(self, name='LP64'):
+    def __init__(self, name=None):
+        name = name or ('ILP32' if ILP32 else 'LP64')
         self.name = name
         self.long = 8 if name == 'LP64' else 4
         self.ptr = 8 if name == 'LP64' else 4
